@@ -7,7 +7,7 @@ property monitors on real traces -> on any broken obligation / disagreement sear
 input -> verdict + evidence."""
 import sys, os, json, random, shutil, time, re, traceback
 sys.path.insert(0, os.path.dirname(os.path.abspath(__file__)))
-import vlib, kapi, genapi, monitors, ksizes, kcrypto, kattr, kguard, kstore
+import vlib, kapi, genapi, monitors, ksizes, kcrypto, kattr, kguard, kstore, ktoken
 
 TRUSTED_BASE = [
     'Coq 8.16.1 kernel (coqc, full .vo build); vm_compute used for reflection over regenerated tables and finite sweeps; no native_compute',
@@ -307,7 +307,7 @@ def check_C12(res, tier, seed):
 
 def _kc_job(args):
     fn, a = args[0], args[1:]
-    mod = kattr if fn.startswith('seq_attr') else kguard if fn.startswith('seq_guard') else kstore if fn in ('seq_reject', 'seq_persist') else kcrypto
+    mod = kattr if fn.startswith('seq_attr') else kguard if fn.startswith('seq_guard') else kstore if fn in ('seq_reject', 'seq_persist') else ktoken if fn == 'seq_tokens' else kcrypto
     return getattr(mod, fn)(*a)
 
 
@@ -509,15 +509,27 @@ def check_C09(res, tier, seed):
     finish_proof_side(c, res, 'C09')
 
 
+def check_C14(res, tier, seed):
+    c = prepare('C14', res)
+    stats, distinct, samples = run_kcrypto(c, res, 'C14', 'seq_tokens', 160 if tier == 'quick' else 4000, seed, stream='K-token')
+    stats2, samples2 = run_kapi(c, res, 'C14', 'tokens', 200 if tier == 'quick' else 6000, 50, seed, 'monitor_c03', gen_kw={'ntok': 3})
+    res.coverage.update({'evaluations': stats['calls'] + stats2['ops'], 'distinct_nontrivial': distinct + stats2['distinct_traces'],
+                         'rule': 'K-token: per sequence 25-40 steps over up to three tokens: C_InitToken on the free slot, re-initialisation with the right / a wrong SO PIN with / without sessions, sessions, logins, PIN changes, object creation / destruction, C_Finalize+C_Initialize or a new process; after every step addressed to token j a snapshot (label, serial, flags, session states, objects) of every other token is compared with before; after every restart label, serial, initialisation flags, slot id = (last 8 hex digits of the serial) & 0x7fffffff, both PINs and the token objects are compared.  K-api: the core model (with the isolation / re-initialisation theorems) against the library on random three-token histories.',
+                         'samples': samples, 'k_token': stats, 'k_api': stats2, 'traces_validated_against_impl': stats['sequences'] + stats2['sequences'],
+                         'not_covered': 'softhsm2-util --init-token / --delete-token (the utility drives the same C_InitToken / ObjectStore code; not run here); SQLite backend (see C20)'})
+    finish_proof_side(c, res, 'C14')
+
+
 def check_C05(res, tier, seed):
     c = prepare('C05', res, extra_vo=['extract/ExtractCodec.vo'])
     codecdrv = vlib.build_ocaml('codecdrv', 'codec_model', 'codecdrv.ml')
     st = store_sweep(c, res, 'C05', tier, seed, ('fail',))
     stats, distinct, samples = run_kcrypto(c, res, 'C05', 'seq_persist', 64 if tier == 'quick' else 1500, seed, extra=(codecdrv,), stream='K-codec')
     gold = golden_check(c, res, codecdrv)
+    stats2, samples2 = run_kapi(c, res, 'C05', 'persist', 150 if tier == 'quick' else 5000, 50, seed, 'monitor_c01')
     res.coverage.update({'evaluations': stats['calls'] + st['fail_cases'], 'distinct_nontrivial': distinct,
                          'rule': 'K-persist: per sequence 5-9 objects of 10 kinds (data 0..300000 bytes, AES / generic keys, RSA public keys, certificates, CKA_ALLOWED_MECHANISMS, nested CKA_WRAP_TEMPLATE, dates), 2-4 rounds of label / id changes, copies, destructions, each followed by C_Finalize+C_Initialize, a new process or C_CloseAllSessions; the token objects and every attribute value before and after must be identical, destroyed objects must stay away, session objects must be gone.  K-codec: every object file left behind decodes in the extracted Coq codec, re-encodes to the same bytes, and for public objects every decoded value equals the C_GetAttributeValue result.  Golden: the token directory committed under fixtures/ (written by the pinned version) is opened by the current build: both PINs log in, every object has the recorded values.  K-fault: a call that answers CKR_OK although a file-system call failed must have left its effect on disk.',
-                         'samples': samples, 'k_persist': stats, 'k_fault': st, 'golden': gold, 'traces_validated_against_impl': stats['sequences'],
+                         'samples': samples, 'k_persist': stats, 'k_fault': st, 'golden': gold, 'k_api': stats2, 'traces_validated_against_impl': stats['sequences'] + stats2['sequences'],
                          'not_covered': 'SQLite backend (see C20)'})
     finish_proof_side(c, res, 'C05')
 
@@ -558,7 +570,7 @@ def kapi_check(pid, profile, monitor_name, rule, nq=400, nt=12000, nops=45):
 
 
 RULE = 'model-guided random call sequences over 2 tokens and up to ~8 sessions (%s profile of tools/genapi.py); a trace is non-trivial when at least 3 calls after the prelude succeed; distinct = distinct (op, rv) sequences'
-CHECKS = {'C03': check_C03, 'C07': check_C07, 'C05': check_C05, 'C09': check_C09, 'C16': check_C16, 'C12': check_C12, 'C02': attr_check('C02'), 'C08': attr_check('C08'), 'C10': check_C10, 'C13': check_C13,
+CHECKS = {'C03': check_C03, 'C07': check_C07, 'C05': check_C05, 'C09': check_C09, 'C16': check_C16, 'C14': check_C14, 'C12': check_C12, 'C02': attr_check('C02'), 'C08': attr_check('C08'), 'C10': check_C10, 'C13': check_C13,
           'C01': kapi_check('C01', 'objects', 'monitor_c01', RULE % 'objects'),
           'C04': kapi_check('C04', 'pins', 'monitor_c03', RULE % 'pins'),
           'C11': kapi_check('C11', 'handles', 'monitor_c11', RULE % 'handles'),
